@@ -236,12 +236,7 @@ class Report:
 
 # --------------------------------------------------------------------------- trace validation
 
-def judge_traces(traces, pid, module="TraceForest", cfg="TraceForest.cfg", label="traces", timeout=1800, lib=None):
-    """Hand a batch of recorded traces to TLC (code -> spec). Returns (rejects, TlcResult).
-
-    rejects: list of dicts {trace, event, clauses}. Raises MachineryError if TLC did not
-    consume every event (post-condition) or failed itself.
-    """
+def _judge_one(traces, pid, module, cfg, label, timeout, lib):
     d = workdir(pid, "traces")
     path = os.path.join(d, f"{label}.json")
     with open(path, "w") as f:
@@ -251,11 +246,52 @@ def judge_traces(traces, pid, module="TraceForest", cfg="TraceForest.cfg", label
     if "Model checking completed. No error has been found." not in r.out:
         tail = "\n".join(l for l in r.out.splitlines() if not l.startswith('"'))[-3000:]
         raise MachineryError(f"trace validation did not complete for {label}:\n{tail}")
-    rejects = [j for j in r.json_lines() if j.get("k") == "REJECT"]
-    return rejects, r
+    os.remove(path)
+    return [j for j in r.json_lines() if j.get("k") == "REJECT"], r
 
 
-def parallel(func, items, nproc=None, chunk=None):
+def judge_traces(traces, pid, module="TraceForest", cfg="TraceForest.cfg", label="traces", timeout=1800, lib=None,
+                 max_bytes=30_000_000):
+    """Hand a batch of recorded traces / events to TLC (code -> spec). Returns (rejects, TlcResult-like).
+
+    Large batches are split into chunks of about max_bytes of JSON, each judged by its own TLC process (several at a
+    time); the index field of every rejection (trace / event / case) is mapped back to the position in `traces`.
+    Raises MachineryError if TLC did not consume every event (post-condition) or failed itself."""
+    sizes = [len(json.dumps(t, separators=(",", ":"))) for t in traces] if len(traces) > 200 else None
+    total = sum(sizes) if sizes else 0
+    if not sizes or total <= max_bytes:
+        return _judge_one(traces, pid, module, cfg, label, timeout, lib)
+    chunks, cur, acc, start = [], [], 0, 0
+    for i, (t, sz) in enumerate(zip(traces, sizes)):
+        if cur and acc + sz > max_bytes:
+            chunks.append((start, cur))
+            cur, acc, start = [], 0, i
+        cur.append(t)
+        acc += sz
+    if cur:
+        chunks.append((start, cur))
+    from concurrent.futures import ThreadPoolExecutor
+
+    def work(k):
+        off, part = chunks[k]
+        rej, r = _judge_one(part, pid, module, cfg, f"{label}-{k}", timeout, lib)
+        for j in rej:
+            for key in ("trace", "event", "case"):
+                if key in j and not (key == "event" and "trace" in j):
+                    j[key] += off
+        return rej, r
+    with ThreadPoolExecutor(max_workers=min(6, max(1, NCPU // 3))) as ex:
+        results = list(ex.map(work, range(len(chunks))))
+    rejects = [j for rej, _ in results for j in rej]
+
+    class Sum:
+        distinct = sum((r.distinct or 0) for _, r in results)
+        generated = sum((r.generated or 0) for _, r in results)
+        out = ""
+    return rejects, Sum
+
+
+def parallel(func, items, nproc=None, chunk=None, timeout=2400):
     """Run func(list_chunk) -> result over chunks of items in forked workers; returns list of results."""
     import multiprocessing as mp
     nproc = nproc or NCPU
@@ -268,4 +304,9 @@ def parallel(func, items, nproc=None, chunk=None):
         return [func(c) for c in chunks]
     ctx = mp.get_context("fork")
     with ctx.Pool(nproc) as pool:
-        return pool.map(func, chunks)
+        try:
+            return pool.map_async(func, chunks).get(timeout=timeout)
+        except mp.TimeoutError:
+            pool.terminate()
+            raise MachineryError(f"workers of {getattr(func, '__name__', func)} did not finish within {timeout}s "
+                                 "(a library call may not terminate on some input)")
